@@ -218,7 +218,7 @@ def many_members(ctx, n):
     allocates a multiple of members x input. Marked noref (tens of kilobytes)."""
     rnd = random.Random(ctx.seed * 104729 + 5)
     out = []
-    kinds = ["mls", "mpt", "mpg", "rings", "gc"]
+    kinds = ["mls", "mpt", "mpg", "rings", "gc", "longline", "longring"]
     for i in range(n):
         flavor = rnd.choice(["wkb", "ewkb"])
         xdr = rnd.random() < 0.5
@@ -227,7 +227,7 @@ def many_members(ctx, n):
         o = [0 if xdr else 1]
         kind = kinds[i % len(kinds)]
         # (the decoded geometry stays below the 8192 ordinates at which the driver records a placeholder instead of the tree)
-        per = dict(mls=3, mpt=1, mpg=8, rings=8, gc=2)[kind] * stride
+        per = dict(mls=3, mpt=1, mpg=8, rings=8, gc=2, longline=1, longring=1)[kind] * stride
         m = min(rnd.choice([500, 1000, 1500]), 7000 // per)
 
         def pts(k, count=True):
@@ -239,7 +239,24 @@ def many_members(ctx, n):
         def ring():
             first = pts(1, False)
             return u32(4, xdr) + first + pts(2, False) + first
-        if kind == "mls":
+        if kind in ("longline", "longring"):
+            # ONE coordinate array of several hundred positions (beyond any fixed-size chunk an encoder or decoder may work
+            # in), every ordinate different from the others: the canonical re-encoding must give the same tree again
+            npts = rnd.choice([257, 300, 513, 700, 1025]) if stride == 2 else rnd.choice([171, 257, 400])
+            body = u32(npts, xdr)
+            first = []
+            for k in range(npts * stride):
+                v = [64, (k >> 8) & 255, k & 255, rnd.randrange(256), 0, 0, 0, 0]
+                if kind == "longring" and k >= (npts - 1) * stride:
+                    v = first[k - (npts - 1) * stride]
+                elif k < stride:
+                    first.append(v)
+                body += v if xdr else v[::-1]
+            if kind == "longline":
+                b = o + type_word(2, dim, False, flavor, xdr) + body
+            else:
+                b = o + type_word(3, dim, False, flavor, xdr) + u32(1, xdr) + body
+        elif kind == "mls":
             b = o + type_word(5, dim, False, flavor, xdr) + u32(m, xdr)
             for _ in range(m):
                 b += o + type_word(2, dim, False, flavor, xdr) + pts(rnd.choice([2, 2, 3]))
@@ -333,7 +350,7 @@ def run(ctx, verdict):
     bases = sorted(outb["BASE"], key=vlib.digest)
     if not bases:
         raise vlib.Infra("no valid encodings from WKBMut_base.cfg")
-    many = many_members(ctx, 10 if ctx.quick else 100)
+    many = many_members(ctx, 14 if ctx.quick else 140)
     ctx.coverage_extra["many_member_inputs"] = dict(count=len(many), bytes_max=max(len(c["bytes"]) for c in many))
     extra = seeded(ctx, bases) + honoured_counts(ctx, 60 if ctx.quick else 2000) + many
     cases = sorted(cases + extra, key=vlib.digest)
